@@ -88,7 +88,7 @@ CHECKS = {
    "Error position is judged at the granularity the API has. Acknowledgements and session-generated timestamps are masked (C17/C18 own them)."),
  "C16": ("exploration",
    "differential testing against a per-chunk-stream reference reassembler over generated chunk interleavings, plus the delivery-timing clause",
-   "2..4 multi-chunk messages on distinct chunk streams, reference-encoded and merged by a generated interleaving, behind a sequential prefix on several chunk streams (and, in one sub-check, on 63..4097 of them); expected deliveries come from RefChunkDec; each message must also be out in the call that supplies its last chunk. The defect this check first reported (D11: one reassembly buffer shared by all chunk streams) was carried as a known finding and is now repaired in /repo (c2ab1c5); every interleaving is enforced, nothing is set aside.",
+   "2..4 multi-chunk messages on distinct chunk streams, reference-encoded and merged by a generated interleaving, behind a sequential prefix on several chunk streams (and, in one sub-check, on 63..4097 of them); expected deliveries come from RefChunkDec; each message must also be out in the call that supplies its last chunk; one sub-check sends Set Chunk Size messages between the chunks of messages in flight (which found D17, repaired in e7d3b33). The defect this check first reported (D11: one reassembly buffer shared by all chunk streams) was carried as a known finding and is now repaired in /repo (c2ab1c5); every interleaving is enforced, nothing is set aside.",
    "DESIGN.md §4 C16, §9.2",
    "The signature classification of the old finding stays in the code, so a regression is named; known_findings.txt lists it as fixed, which suppresses nothing."),
  "C17": ("exploration",
@@ -164,7 +164,7 @@ def main():
         ],
         "checks": checks,
         "not_applicable": not_applicable,
-        "notes": "All commands run from /verif. Exit 0 = held on everything explored, 1 = VIOLATION line printed, 2 = harness trouble (never a violation). VERIF_SEED selects the PRNG seed; VERIF_THREADS the shard count. Known findings: /verif/known_findings.txt.",
+        "notes": "All commands run from /verif. Exit 0 = held on everything explored, 1 = VIOLATION line printed, 2 = harness trouble (never a violation). VERIF_SEED selects the PRNG seed; VERIF_THREADS the shard count. Findings: /verif/known_findings.txt (17 fixed, none open).",
     }
     with open(os.path.join(ROOT, "MANIFEST.json"), "w") as f:
         json.dump(manifest, f, indent=1)
